@@ -1238,3 +1238,94 @@ func runNoEmptyScriptKeyInCluster(c *Ctx) {
 	}
 	c.Anchor("C34.R4", "script calls of the Redis map broker", n >= 2)
 }
+
+func init() {
+	r4doc("C41", "C41.R7", "K4 who-may-read: a survey response is matched through the registry only, never against the id counter")
+	round3Hooks["C41"] = append(round3Hooks["C41"], runSurveyResponseByRegistryOnly)
+	r4doc("C42", "C42.R6", "ownership: GetByteBuffer never hands out a package-level buffer object")
+	round3Hooks["C42"] = append(round3Hooks["C42"], runGetReturnsPrivateBuffer)
+	r4doc("C35", "C35.R6", "single source: a partition index becomes part of a key only through pubSubPartitionHashTag")
+	r4doc("C34", "C34.R5", "single source: a partition index becomes part of a key only through pubSubPartitionHashTag")
+	round3Hooks["C35"] = append(round3Hooks["C35"], func(c *Ctx) { runPartitionTagSingleSource(c, "C35.R6") })
+	round3Hooks["C34"] = append(round3Hooks["C34"], func(c *Ctx) { runPartitionTagSingleSource(c, "C34.R5") })
+}
+
+// runSurveyResponseByRegistryOnly (C41.R7): surveys of one node may overlap, so "older than the newest id"
+// says nothing about whether a survey is finished: only the registry does. handleSurveyResponse does not
+// read Node.surveyID.
+func runSurveyResponseByRegistryOnly(c *Ctx) {
+	w := c.W
+	fn := w.Func("centrifuge", "(*Node).handleSurveyResponse")
+	if !c.Anchor("C41.R7", "(*Node).handleSurveyResponse", fn) {
+		return
+	}
+	bad := ""
+	for _, acc := range FieldAccesses(fn, "Node", "surveyID") {
+		bad = w.InstrPos(acc.In)
+	}
+	c.CheckAt("C41.R7", "(*centrifuge.Node).handleSurveyResponse: responses are matched through the registry only", w.Pos(fn.Pos()), bad == "",
+		"a response is judged against the id counter (at "+bad+"): with overlapping surveys the answers to the older, still running survey are dropped and it runs into its deadline with results missing")
+}
+
+// runGetReturnsPrivateBuffer (C42.R6): a buffer obtained from the pool is written by its holder. Every
+// value GetByteBuffer returns is a fresh allocation or comes out of a sync.Pool — never an object kept in
+// a package-level variable, which every caller of that size class would share.
+func runGetReturnsPrivateBuffer(c *Ctx) {
+	w := c.W
+	fn := w.Func("internal/bpool", "GetByteBuffer")
+	if !c.Anchor("C42.R6", "GetByteBuffer", fn) {
+		return
+	}
+	n := 0
+	EachInstr(fn, func(in ssa.Instruction) {
+		r, ok := in.(*ssa.Return)
+		if !ok {
+			return
+		}
+		for _, v := range retVals(r) {
+			n++
+			c.Check("C42.R6", r, "GetByteBuffer returns a private buffer object", !fromSharedObject(w, v, 0, map[ssa.Value]bool{}),
+				"the returned object lives in a package-level variable: two holders write the same buffer, and once it is put back a size class hands out a dirty buffer ("+D(v)+")")
+		}
+	})
+	c.Anchor("C42.R6", "returns of GetByteBuffer", n >= 2)
+}
+
+// runPartitionTagSingleSource: the tag of a partition is its bundled precomputed tag or, in the legacy
+// scheme, its decimal index — decided in one place, pubSubPartitionHashTag. A key builder that formats the
+// partition index itself ignores UsePrecomputedPartitionTags for that key: it lands in another slot than
+// the rest of the partition's keys, and on the unbalanced bare-index slots.
+func runPartitionTagSingleSource(c *Ctx, rule string) {
+	w := c.W
+	isIndex := w.calleeIs("consistentIndex")
+	fromIndex := func(v ssa.Value) bool {
+		return derivesFromPred(v, func(x ssa.Value) bool {
+			call, ok := x.(*ssa.Call)
+			return ok && isIndex(call)
+		}, 0, map[ssa.Value]bool{})
+	}
+	n := 0
+	for _, f := range moduleFuncs(w) {
+		if f.Pkg == nil || f.Pkg.Pkg.Path() != modPath {
+			continue
+		}
+		EachInstr(f, func(in ssa.Instruction) {
+			call, ok := in.(*ssa.Call)
+			if !ok {
+				return
+			}
+			cal := call.Call.StaticCallee()
+			if cal == nil || cal.Pkg == nil || cal.Pkg.Pkg.Path() != "strconv" || (cal.Name() != "Itoa" && cal.Name() != "FormatInt" && cal.Name() != "FormatUint") {
+				return
+			}
+			if !fromIndex(call.Call.Args[0]) {
+				return
+			}
+			n++
+			c.Check(rule, in, "a partition index is formatted only inside pubSubPartitionHashTag", strings.HasSuffix(f.Name(), "pubSubPartitionHashTag") || strings.HasSuffix(f.Name(), "PartitionHashTag"),
+				"the key gets the bare index as its hash tag whatever UsePrecomputedPartitionTags says: it hashes to another slot than the partition's other keys and channel")
+		})
+	}
+	c.CheckAt(rule, "formatting of partition indices examined", "broker_redis.go", true, "")
+	_ = n
+}
